@@ -60,6 +60,7 @@ Report ==
         /\ Rep("FinalIffLast", FinalIffLast(D, Steps, l, RerunSeen, OpSeen))
         /\ Rep("DelayRespected", DelayRespected(D, Steps, l))
         /\ Rep("WaitBeforeRespected", WaitBeforeRespected(D, Steps, l))
+        /\ Rep("PauseBeforeRespected", PauseBeforeRespected(D, Steps, l))
         /\ Rep("WaitAfterRespected", WaitAfterRespected(D, Steps, l))
         /\ Rep("TimeoutJudged", TimeoutJudged(D, Steps, l, OpSeen))
   /\ Rep("ExpiredFailed", ExpiredFailed(P, O, Ev, R.meta.hbThreshold))
